@@ -89,7 +89,24 @@ type ShapeEmbDeep struct {
 	T uint16 `hash:"param:t"`
 }
 
+// several parameter names that each conflict at one depth; byte arrays whose length tag is shorter / equal / longer
+type ShapeConflict2 struct {
+	A string `hash:"param:k"`
+	B string `hash:"param:k"`
+	C uint8  `hash:"param:j"`
+	D uint8  `hash:"param:j"`
+	E []byte `hash:"param:m"`
+	F []byte `hash:"param:m"`
+}
+type ShapeArrLen struct {
+	S string
+	A [4]byte `hash:"length:2"`
+	B [2]byte `hash:"length:2"`
+	C [3]byte `hash:"length:5"`
+}
+
 var handShapes = []reflect.Type{
+	reflect.TypeOf(ShapeArrLen{}),
 	reflect.TypeOf(ShapeEmbFirst{}), reflect.TypeOf(ShapeEmbLast{}), reflect.TypeOf(ShapeEmbTwo{}), reflect.TypeOf(ShapeEmbDeep{}),
 	reflect.TypeOf(ShapeEmbVal{}), reflect.TypeOf(ShapeEmbPtr{}), reflect.TypeOf(ShapeShadow{}), reflect.TypeOf(ShapeText{}),
 	reflect.TypeOf(ShapePtrs{}), reflect.TypeOf(ShapeConflict{}), reflect.TypeOf(ShapeUnexpEmb{}),
